@@ -342,7 +342,7 @@ def rule_line_unit(ctx, rep, rule_id="R-LINE-UNIT"):
         min_instances=8,
     )
     mods = {"codemodder.diff"}
-    fns = [f for f in ctx.prog.functions.values() if f.module.name in mods] + rw_sites(ctx)
+    fns = [f for f in ctx.prog.live_functions() if f.module.name in mods] + rw_sites(ctx)
     extra = []
     for fn in rw_sites(ctx):
         r = ctx.resolver(fn)
